@@ -248,4 +248,94 @@ theorem q0_bounds {f : Fmt} (hf : WF f) {num den : Nat} (hn : num ≠ 0) (hd : d
       rwa [show den * 2 ^ (f.p + k) = 2 ^ f.p * (den * 2 ^ k) by rw [Nat.pow_add]; ac_rfl] at h2
     omega
 
+theorem two_pow_P {f : Fmt} (hf : WF f) : 2 ^ f.p = 2 * 2 ^ (f.p - 1) := by
+  have := hf.hp
+  rw [show f.p = (f.p - 1) + 1 by omega, Nat.pow_succ, Nat.mul_comm]; simp
+
+theorem T_even {f : Fmt} (hf : WF f) : ∃ t, 2 ^ (f.p - 1) = 2 * t ∧ 0 < t := by
+  have := hf.hp
+  refine ⟨2 ^ (f.p - 2), ?_, Nat.two_pow_pos _⟩
+  rw [show f.p - 1 = (f.p - 2) + 1 by omega, Nat.pow_succ, Nat.mul_comm]
+
+theorem M_ge {f : Fmt} (hf : WF f) : 3 ≤ f.maxExpField := by
+  unfold Fmt.maxExpField
+  have : 2 ^ 2 ≤ 2 ^ f.ebits := Nat.pow_le_pow_right (by decide) hf.he
+  omega
+
+theorem M_eq {f : Fmt} (hf : WF f) : f.maxExpField = 2 * f.bias + 1 := by
+  unfold Fmt.maxExpField Fmt.bias
+  have := hf.he
+  have : 2 ^ f.ebits = 2 * 2 ^ (f.ebits - 1) := by
+    rw [show f.ebits = (f.ebits - 1) + 1 by omega, Nat.pow_succ, Nat.mul_comm]; simp
+  have := Nat.two_pow_pos (f.ebits - 1)
+  omega
+
+theorem infBits_eq (f : Fmt) : f.infBits = f.maxExpField * 2 ^ (f.p - 1) := rfl
+
+theorem pack_renorm {f : Fmt} (hf : WF f) (k q0 : Nat) (h1 : 0 < k → 2 ^ (f.p - 1) ≤ q0)
+    (h2 : q0 ≤ 2 ^ f.p) :
+    pack f (renorm f q0 ((k : Int) - (L f : Int))).1 (renorm f q0 ((k : Int) - (L f : Int))).2 =
+      if f.infBits ≤ k * 2 ^ (f.p - 1) + q0 then f.infBits else k * 2 ^ (f.p - 1) + q0 := by
+  have hp := hf.hp
+  have hb := bias_pos hf
+  have hM := M_ge hf
+  have hTT := two_pow_P hf
+  have hinf := infBits_eq f
+  generalize hT : 2 ^ (f.p - 1) = T at *
+  generalize hMM : f.maxExpField = M at *
+  have hTpos : 0 < T := by rw [← hT]; exact Nat.two_pow_pos _
+  have hL : (L f : Int) = (f.bias : Int) + ((f.p : Int) - 1) - 1 := by unfold L; omega
+  have cmp1 : ∀ j : Nat, M ≤ j → M * T ≤ j * T := fun j h => Nat.mul_le_mul_right T h
+  have cmp2 : ∀ j : Nat, j ≤ M → j * T ≤ M * T := fun j h => Nat.mul_le_mul_right T h
+  have e1 : (k + 1) * T = k * T + T := Nat.succ_mul k T
+  have e2 : (k + 2) * T = k * T + 2 * T := by rw [Nat.add_mul]
+  unfold renorm pack
+  by_cases hq : q0 = 2 ^ f.p
+  · simp only [hq, if_true, hT, Nat.lt_irrefl, if_false, Nat.sub_self, Nat.add_zero]
+    have hb2 : ((k : Int) - (L f : Int) + 1 + ((f.p : Int) - 1) + (f.bias : Int)) = ((k + 2 : Nat) : Int) := by
+      omega
+    rw [hb2, hTT]
+    by_cases hc : M ≤ k + 2
+    · have := cmp1 _ hc
+      rw [if_pos (by omega), if_pos (by omega)]
+    · have := cmp2 (k + 3) (by omega)
+      have e3 : (k + 3) * T = k * T + 3 * T := by rw [Nat.add_mul]
+      rw [if_neg (by omega), if_neg (by omega)]
+      simp only [Int.toNat_natCast]; omega
+  · simp only [hq, if_false, hT]
+    have hb1 : ((k : Int) - (L f : Int) + ((f.p : Int) - 1) + (f.bias : Int)) = ((k + 1 : Nat) : Int) := by
+      omega
+    rw [hb1]
+    by_cases hlt : q0 < T
+    · have hk0 : k = 0 := by
+        apply Classical.byContradiction; intro hk; have := h1 (by omega); omega
+      subst hk0
+      have := cmp2 1 (by omega)
+      rw [if_pos hlt, if_neg (by omega)]; omega
+    · rw [if_neg hlt]
+      have hq2 : q0 < 2 * T := by omega
+      by_cases hc : M ≤ k + 1
+      · have := cmp1 _ hc
+        rw [if_pos (by omega), if_pos (by omega)]
+      · have := cmp2 (k + 2) (by omega)
+        rw [if_neg (by omega), if_neg (by omega)]
+        simp only [Int.toNat_natCast]; omega
+
+/-- `roundNE` is "encode the rounded significand by adding it to `k·2^(p-1)`, clamp at infinity". -/
+theorem roundNE_eq {f : Fmt} (hf : WF f) {num den : Nat} (hn : num ≠ 0) (hd : den ≠ 0) :
+    roundNE f num den =
+      if f.infBits ≤ kOf f (ilog2Q num den) * 2 ^ (f.p - 1) +
+            rhe (num * 2 ^ (L f)) (den * 2 ^ kOf f (ilog2Q num den))
+      then f.infBits
+      else kOf f (ilog2Q num den) * 2 ^ (f.p - 1) +
+            rhe (num * 2 ^ (L f)) (den * 2 ^ kOf f (ilog2Q num den)) := by
+  obtain ⟨h1, h2⟩ := q0_bounds hf hn hd
+  rw [roundNE_unfold, if_neg hn]
+  simp only []
+  rw [scaled_rhe num den _ (L f) (by rw [lsbOf_eq hf]; omega), lsbOf_eq hf]
+  have : ((kOf f (ilog2Q num den) : Int) - (L f : Int) + (L f : Int)).toNat = kOf f (ilog2Q num den) := by
+    omega
+  rw [this]
+  exact pack_renorm hf _ _ h1 h2
+
 end LexVerif.Proof.RoundNE
